@@ -21,6 +21,8 @@ enum Req {
     Oom(usize),
     Exit,
     Big(u64, String),
+    /// answers after `sleep_ms` with a payload of `len` bytes
+    Blob(u64, usize, u64),
 }
 
 #[derive(Serialize, Deserialize, Clone, Debug)]
@@ -33,7 +35,7 @@ struct Svc;
 
 impl Service for Svc {
     type Req = Req;
-    type Res = (u64, u32);
+    type Res = (u64, u32, Vec<u8>);
     type Config = Cfg;
     fn args(_config: &Cfg) -> Vec<OsString> { vec!["--child".into()] }
     fn timeout(config: &Cfg) -> Duration { Duration::from_millis(config.timeout_ms) }
@@ -41,7 +43,13 @@ impl Service for Svc {
         GLOBAL.set_limit(config.limit);
         Ok(Svc)
     }
-    fn handle(&self, req: Req) -> (u64, u32) {
+    fn handle(&self, req: Req) -> (u64, u32, Vec<u8>) {
+        let (id, pid) = self.handle_small(req.clone());
+        match req { Req::Blob(_, len, _) => (id, pid, vec![7u8; len]), _ => (id, pid, vec![]) }
+    }
+}
+impl Svc {
+    fn handle_small(&self, req: Req) -> (u64, u32) {
         let pid = std::process::id();
         match req {
             Req::Add(id) => (id, pid),
@@ -50,6 +58,7 @@ impl Service for Svc {
             Req::Oom(n) => { let v: Vec<u8> = Vec::with_capacity(n); (v.capacity() as u64, pid) }
             Req::Exit => std::process::exit(3),
             Req::Big(id, s) => (id + (s.len() as u64) * 0, pid),
+            Req::Blob(id, _, ms) => { std::thread::sleep(Duration::from_millis(ms)); (id, pid) }
         }
     }
 }
@@ -57,6 +66,23 @@ impl Service for Svc {
 fn main() {
     let args: Vec<String> = env::args().collect();
     if args.len() > 1 && args[1] == "--child" {
+        // SBX_SLOW_STDOUT=<bytes per millisecond>: what the child writes reaches the parent at that rate, so that a
+        // large reply is still on its way when the time limit ends (a deadline in the middle of a frame)
+        if let Some(rate) = env::var("SBX_SLOW_STDOUT").ok().and_then(|v| v.parse::<usize>().ok()) {
+            use std::io::{Read, Write};
+            use std::os::fd::{AsRawFd, FromRawFd};
+            let (mut r, w) = std::io::pipe().expect("pipe");
+            let real = unsafe { libc::dup(1) };
+            unsafe { libc::dup2(w.as_raw_fd(), 1) };
+            drop(w);
+            std::thread::spawn(move || {
+                let mut out = unsafe { std::fs::File::from_raw_fd(real) };
+                let mut buf = vec![0u8; rate.max(1) * 4];
+                loop {
+                    match r.read(&mut buf) { Ok(0) | Err(_) => break, Ok(n) => { if out.write_all(&buf[..n]).is_err() { break; } let _ = out.flush(); std::thread::sleep(Duration::from_millis((n / rate.max(1)) as u64)); } }
+                }
+            });
+        }
         rink_sandbox::become_child::<Svc, _>(&GLOBAL);
     }
     if args.len() < 6 || args[1] != "run" {
@@ -84,6 +110,8 @@ fn main() {
                 "big" => Req::Big(id, "x".repeat(1 << 20)),
                 // a request that the child cannot even read: larger than its memory limit
                 "huge" => Req::Big(id, "x".repeat(limit + (1 << 20))),
+                // a reply that is still being received when the time limit ends (with SBX_SLOW_STDOUT)
+                "blob" => Req::Blob(id, 6 << 20, timeout_ms / 2),
                 _ => { println!("bad-op"); continue; }
             };
             let fut = sandbox.execute(req);
